@@ -288,8 +288,17 @@ class Ctx:
                 out.extend(self.alts(b, payload['rv']['a'], dbb, dpos, proj))
                 continue
             if kind == 'assign' and payload['rv']['k'] == 'ref' and not any(isinstance(e, dict) and ('idx' in e or 'cidx' in e or 'dc' in e) for e in payload['rv']['pl']['p']):
-                out.extend(self.alts(b, {'k': 'copy', 'pl': payload['rv']['pl']}, dbb, dpos, proj))
+                rp = payload['rv']['pl']
+                # a reborrow &*x is x for the value DAG (references are transparent there)
+                rp = {'l': rp['l'], 'p': [e for e in rp['p'] if e != 'deref']}
+                out.extend(self.alts(b, {'k': 'copy', 'pl': rp}, dbb, dpos, proj))
                 continue
+            if kind == 'call' and payload.get('args'):
+                from .core import TRANSPARENT
+                name, _ = b.callee(payload)
+                if (name in TRANSPARENT or name.endswith(('::clone', '::deref', '::deref_mut'))) and payload['args'][0]['k'] in ('copy', 'move'):
+                    out.extend(self.alts(b, payload['args'][0], dbb, len(b.blocks[dbb]['stmts']), proj))
+                    continue
             v = b.dag().defdag(pl['l'], d)
             for f in proj:
                 v = mk_field(f, v)
@@ -386,6 +395,40 @@ class Ctx:
         self.ob(rule, key, e is not None, desc, where=where or body.file,
                 found=None if e is not None else '; '.join(f"{c['form']}: src={show(c['src']) if c['src'] else None} elem={show(c['elem'])[:200]} conds={len(c['conds'])}" for c in comps) or show(d)[:300])
         return e
+
+    def cases_by(self, body, site, operands, split_pat):
+        """the values of several operands at `site`, separated by the polarity of ONE branch condition: {True: [dag...], False: [dag...]}.
+        Works whether the code has two sites under `if c {..} else {..}` (then call it per site: the side not taken is None) or one site
+        fed by `let (a, b) = if c {..} else {..}` (merged branches): each operand's alternatives are told apart by the guards at their
+        definition. An operand with a single unconditional definition belongs to both sides."""
+        # split_pat: a pattern, or (pattern of the condition, pattern of its complement) for enum tests that the literal normaliser turns
+        # into the other variant (`x is Some` false  ==  `x is None` true)
+        if isinstance(split_pat, tuple) and len(split_pat) == 2 and all(isinstance(x, str) for x in split_pat):
+            pt, pf = P(split_pat[0]), P(split_pat[1])
+        else:
+            pt, pf = (P(split_pat) if isinstance(split_pat, str) else split_pat), None
+
+        def side(lits):
+            """True / False if the literal set decides the condition, else None"""
+            for a, p in lits:
+                if DEFAULT.match(pt, a) is not None:
+                    return p
+                if pf is not None and DEFAULT.match(pf, a) is not None:
+                    return not p
+            return None
+        out = {True: [], False: []}
+        site_side = side(self.guards(body, site.bb))
+        for op in operands:
+            al = self.alts(body, op, site.bb, site.idx)
+            for pol in (True, False):
+                if site_side is not None and site_side != pol:
+                    out[pol].append(None)
+                    continue
+                pick = [dv for (dbb, dv, g) in al if side(g) == pol]
+                if not pick and len(al) == 1 and (side(al[0][2]) is None or site_side is not None):
+                    pick = [al[0][1]]
+                out[pol].append(pick[0] if len(pick) == 1 else None)
+        return out
 
     def returned_locals(self, body):
         """locals whose value is moved/copied into the return place (through whole-local copies), found by role not by name"""
